@@ -1,15 +1,54 @@
-(* C03: valued A/L cells are mark-to-market within the truncation allowance; a missing price fails *)
+(* C03: valued A/L rows are mark-to-market within the truncation allowance; a missing price fails.
+   Every row of the asset/liability section on which an asset/liability account of the journal lands
+   (itself without --mapping/--remap; the row remap and the first matching mapping rule send it to
+   otherwise) is compared with Spec.ValuationMappedSpec.mtm_row_mapped: the sum over the accounts
+   that land on the row (Spec.MarkToMarketMappedSpec.sources_of) of ValuationSpec.mtm_expected,
+   within the sum of ValuationSpec.step_bound (C03_windowed_mapped, C03_model_meets_spec_mapped;
+   for a row with the single source itself this is mtm_row of C03_model_meets_spec).  An
+   expectation that is undefined although a report was printed is a failure
+   (C03_expected_defined).  An empty cell is the value 0; a row that is not printed is 0 in every
+   column.
+
+   The driver's own part (trusted): finding the printed line of a row.  The CSV shows only the last
+   segment of every account, in tree order.  The full paths are rebuilt from the order and the set
+   of possible rows (prefixes of the rows the journal's A/L accounts land on); if that is ambiguous
+   for some line of the case, rows are found by their last segment and skipped unless it is unique.
+   The counts are appended to the model output after " ##C03 " (checks/c03.py strips and sums them). *)
 open Drv_util
 open Drv_journal
 
 let last_seg (a : K.z list list) : string =
   match List.rev a with [] -> "" | s :: _ -> string_of_str s
 
+let path_of (a : K.z list list) : string list = List.map string_of_str a
+
+let rec take k l = if k <= 0 then [] else match l with [] -> [] | x :: r -> x :: take (k - 1) r
+
+(* full paths of the printed rows, from their names in tree order (siblings ascending) and the set of
+   possible rows; None if some name has no or several possible places *)
+let reconstruct (cands : (string list, unit) Hashtbl.t) (names : string list) : string list list option =
+  let rec go cur acc = function
+    | [] -> Some (List.rev acc)
+    | n :: rest ->
+      let len = List.length cur in
+      let opts = ref [] in
+      for k = len downto 0 do
+        let path = take k cur @ [n] in
+        let order_ok = k = len || compare n (List.nth cur k) > 0 in
+        if order_ok && Hashtbl.mem cands path then opts := path :: !opts
+      done;
+      (match !opts with [p] -> go p (p :: acc) rest | _ -> None) in
+  go [] [] names
+
+type stats = { mutable plain : int; mutable mapped : int; mutable absent : int; mutable ambiguous : int;
+               mutable nosrc : int; mutable nonal : int; mutable undefined : int; mutable bypath : int }
+
 let () =
   register "C03.bal" (fun inp obs ->
     let (c, j) = split_input inp in
     let cfg = decode_cfg c in
     let model = run_balance inp in
+    let st = { plain = 0; mapped = 0; absent = 0; ambiguous = 0; nosrc = 0; nonal = 0; undefined = 0; bypath = 0 } in
     let spec =
       match K.parse_directives (decode_journal j) with
       | K.MOk dl ->
@@ -35,34 +74,72 @@ let () =
            else begin
              let rows = List.filter (fun l -> l <> "") (String.split_on_char '\n' csv) in
              let rows = List.map (String.split_on_char ',') rows in
+             let ncols = (match rows with h :: _ -> List.length h - 1 | [] -> 0) in
              (* A/L section: rows before "Total (A+L)" *)
-             let rec take = function
-               | [] -> [] | (n :: _) :: _ when n = "Total (A+L)" -> [] | r :: rest -> r :: take rest in
-             let al_rows = take (match rows with _ :: t -> t | [] -> []) in
+             let rec take_al = function
+               | [] -> [] | (n :: _) :: _ when n = "Total (A+L)" -> [] | r :: rest -> r :: take_al rest in
+             let al_rows = take_al (match rows with _ :: t -> t | [] -> []) in
+             (* the rows the journal's A/L accounts land on, each once, in journal order *)
+             let targets = List.fold_left (fun acc a ->
+                 match K.target_of cfg.bc a with
+                 | Some b -> if List.exists (fun x -> K.acc_eqb x b) acc then acc else acc @ [b]
+                 | None -> acc) [] (K.al_accounts dl) in
+             let cands = Hashtbl.create 64 in
+             List.iter (fun b -> let p = path_of b in
+                         for k = 1 to List.length p do Hashtbl.replace cands (take k p) () done) targets;
+             let names = List.map (fun r -> match r with n :: _ -> n | [] -> "") al_rows in
+             let paths = reconstruct cands names in
+             if paths <> None then st.bypath <- 1;
              let verdict = ref "ok" in
-             List.iter (fun a ->
+             let fail s = if !verdict = "ok" then verdict := s in
+             List.iter (fun b ->
                if !verdict = "ok" then begin
-                 let seg = last_seg a in
-                 match List.filter (fun r -> match r with n :: _ -> n = seg | [] -> false) al_rows with
-                 | [_ :: cells] ->
-                   (match K.mtm_row cfg.bc dl a with
-                    | Some exps ->
-                      (try List.iter2 (fun cell (eo, n) ->
-                         match eo with
-                         | Some e ->
-                           if cell <> "" then begin
-                             let o = dec_of cell in
-                             if not (K.within_bound o e n) && !verdict = "ok" then
-                               verdict := Printf.sprintf "FAIL:value of %s shown %s, mark-to-market %s (allowance %d e-8)"
-                                            (string_of_str (K.acc_name a)) cell (string_of_str (K.to_string e)) (int_of_z n)
-                           end
-                         | None -> ()) cells exps
-                       with Invalid_argument _ -> verdict := "FAIL:column count")
-                    | None -> ())
-                 | _ -> ()    (* account without a row of its own, or ambiguous name: not checked *)
-               end) (K.al_accounts dl);
+                 match K.mtm_row_mapped cfg.bc dl b with
+                 | None -> fail "FAIL:a report was printed but the window of the specification does not exist"
+                 | Some (srcs, exps) ->
+                   if srcs = [] then st.nosrc <- st.nosrc + 1
+                   else if not (K.is_AL b) || List.exists (fun a -> not (K.is_AL a)) srcs then st.nonal <- st.nonal + 1
+                   else begin
+                     let is_mapped = not (match srcs with [a] -> K.acc_eqb a b | _ -> false) in
+                     (* the printed cells of row b *)
+                     let cells =
+                       match paths with
+                       | Some ps ->
+                         let pb = path_of b in
+                         (match List.filter (fun (p, _) -> p = pb) (List.combine ps al_rows) with
+                          | (_, _ :: cells) :: _ -> Some cells
+                          | _ -> st.absent <- st.absent + 1; Some (List.init ncols (fun _ -> "")))
+                       | None ->
+                         let seg = last_seg b in
+                         (match List.filter (fun r -> match r with n :: _ -> n = seg | [] -> false) al_rows with
+                          | [_ :: cells] -> Some cells
+                          | _ -> st.ambiguous <- st.ambiguous + 1; None) in
+                     match cells with
+                     | None -> ()
+                     | Some cells ->
+                       if is_mapped then st.mapped <- st.mapped + 1 else st.plain <- st.plain + 1;
+                       let name = String.concat ":" (path_of b) in
+                       let what = if is_mapped
+                         then Printf.sprintf "row %s (= %s)" name (String.concat " + " (List.map (fun a -> string_of_str (K.acc_name a)) srcs))
+                         else name in
+                       (try List.iter2 (fun cell (eo, n) ->
+                          match eo with
+                          | Some e ->
+                            let o = dec_of (if cell = "" then "0" else cell) in
+                            if not (K.within_bound o e n) then
+                              fail (Printf.sprintf "FAIL:value of %s shown %s, mark-to-market %s (allowance %d e-8)"
+                                      what (if cell = "" then "<empty>" else cell) (string_of_str (K.to_string e)) (int_of_z n))
+                          | None ->
+                            st.undefined <- st.undefined + 1;
+                            fail (Printf.sprintf "FAIL:a report was printed but the mark-to-market value of %s is undefined: a held commodity has no price on a column date" what))
+                          cells exps
+                        with Invalid_argument _ -> fail "FAIL:column count")
+                   end
+               end) targets;
              !verdict
            end)
       | _ -> if obs = "ERR" then "ok" else "FAIL:journal rejected by the model's directive conversion"
     in
-    (model, spec))
+    let suffix = Printf.sprintf " ##C03 plain=%d mapped=%d absent=%d ambiguous=%d nosrc=%d nonal=%d undefined=%d bypath=%d"
+                   st.plain st.mapped st.absent st.ambiguous st.nosrc st.nonal st.undefined st.bypath in
+    (model ^ suffix, spec))
